@@ -1,6 +1,6 @@
 (* Structure/Limits.v -- StructureChecker::{resolve_limits, check, calculate_warn_limit, explain}
    (checker/structure/mod.rs:98-290, 513-585) and calculate_base_depth (builder.rs:100-115) (C06).
-   Scope matching is the oracle column c_lim_scope of the directory. Definitions only. *)
+   Scope matching (on the normalised path, fixes/D07) is the oracle column c_scope of the directory. Definitions only. *)
 From Coq Require Import ZArith NArith List Bool.
 From SG Require Import Structure.Tree Structure.Names Structure.Config Structure.F64 Structure.Scan.
 Import ListNotations.
